@@ -9,6 +9,8 @@ sys.path.insert(0, os.path.dirname(os.path.dirname(os.path.abspath(__file__))))
 
 import c01  # noqa: E402
 from common import Ctx  # noqa: E402
+
+LEAN_TARGETS = ["QuriVerif.Props.C06", "QuriVerif.Driver.C06"]
 from translate import c06gen  # noqa: E402
 
 CLIFF1 = ["X", "Y", "Z", "H", "S", "Sdag", "SqrtX", "SqrtXdag", "SqrtY", "SqrtYdag", "Identity"]
@@ -182,7 +184,7 @@ def one_case(ctx, kind, qs, pairs, reqs, metas, tag="random"):
 
 
 def compare(ctx, reqs, metas):
-    resp = ctx.driver(reqs)
+    resp = ctx.driver(reqs, entry="DriverC06.lean")
     for (kind, cl, tl, order, real, tag), r in zip(metas, resp):
         key = (kind, tuple(cl), tuple(tl), tuple(sorted(order)))
         acted = sum(1 for i, _ in order if i in cl + tl)
@@ -316,6 +318,15 @@ def rejected_cases(ctx, reqs, metas):
                 ctx.count("gate_form", "unavailable:" + kind)
                 continue
             submit(ctx, kind, [], [0], gate, PauliLabel(pairs), reqs, metas, "rejected")
+    # any other gate kind with parameters at / beside the special values (multiples of π/2), labels missing or touching it
+    for _ in range(ctx.n(60, 600)):
+        try:
+            kind, gate = any_gate(rng, rng.sample(range(5), 4))
+            tl = [int(x) for x in gate.target_indices]
+        except Exception:  # noqa: BLE001
+            continue
+        idx = rng.sample(range(7), rng.randint(0, 3))
+        submit(ctx, kind, [], tl, gate, PauliLabel([(i, rng.randint(1, 3)) for i in idx]), reqs, metas, "rejected:special")
 
 
 def shape_cases(ctx, reqs, metas):
@@ -505,6 +516,192 @@ def validate_forms(ctx: Ctx, budget_s: float) -> int:
     return n_eval
 
 
+# ---- admission: "raises, or is exactly right" for gates of ANY kind --------------------------------------------
+_PBASIS: dict = {}
+
+
+def _pauli_basis(k):
+    import numpy as np
+
+    from oracle import dense
+
+    if k not in _PBASIS:
+        _PBASIS[k] = np.array([dense.pauli_matrix_local(ids) for ids in itertools.product(range(4), repeat=k)])
+    return _PBASIS[k]
+
+
+def clifford_defect(m):
+    """max over the generators X_i, Z_i of the distance of m·G·m† from the nearest ±(Pauli string); 0 for a Clifford matrix"""
+    import numpy as np
+
+    from oracle import dense
+
+    dim = m.shape[0]
+    k = dim.bit_length() - 1
+    basis = _pauli_basis(k)
+    worst = 0.0
+    for i in range(k):
+        for pid in (1, 3):
+            g = dense.pauli_matrix_local([pid if j == i else 0 for j in range(k)])
+            a = m @ g @ m.conj().T
+            coef = np.einsum("pij,ji->p", basis, a) / dim
+            j = int(np.argmax(np.abs(coef)))
+            sgn = 1.0 if coef[j].real >= 0 else -1.0
+            worst = max(worst, float(np.max(np.abs(a - sgn * basis[j]))))
+    return worst
+
+
+def special_angle(rng):
+    """angles at, just beside and far from the multiples of π/2 (the values any angle-based notion of 'Clifford' singles out),
+    small and large multiples, both signs; offsets ≥ 1e-8 so that 'strictly not Clifford' is decidable in floating point"""
+    import math
+
+    r = rng.random()
+    if r < 0.15:
+        return rng.uniform(-7, 7)
+    m = rng.choice([0, 0, 1, 1, 2, 3, 4, -1, -2, -3, 5, 6, 7, 8, 16, 101, 400, -400, 4000])
+    d = rng.choice([0.0, 0.0, 0.0, 1e-8, -1e-8, 1e-7, -1e-7, 1e-6, -1e-6, 5e-6, 1.5e-5, -1.5e-5, 1e-4, -1e-3, 1e-2, 0.1]) * (1 if r < 0.8 else max(1, abs(m)))
+    return m * math.pi / 2 + d
+
+
+def any_gate(rng, qs):
+    """(kind, gate) for a gate of any non-named-Clifford kind on (a prefix of) the qubits qs, parameters at special values"""
+    import math
+
+    import numpy as np
+
+    from oracle import dense
+    from quri_parts.circuit import gates
+
+    kind = rng.choice(["RX", "RY", "RZ", "U1", "U2", "U3", "PauliRotation", "PauliRotation", "PauliRotation", "Pauli", "UnitaryMatrix", "TOFFOLI", "T", "Tdag"])
+    a = qs[0]
+    if kind in ("RX", "RY", "RZ", "U1"):
+        return kind, getattr(gates, kind)(a, special_angle(rng))
+    if kind == "U2":
+        return kind, gates.U2(a, special_angle(rng), special_angle(rng))
+    if kind == "U3":
+        return kind, gates.U3(a, special_angle(rng), special_angle(rng), special_angle(rng))
+    if kind in ("PauliRotation", "Pauli"):
+        k = rng.randint(1, min(4, len(qs)))
+        ids = [rng.randint(1, 3) for _ in range(k)]
+        if kind == "Pauli":
+            return kind, gates.Pauli(qs[:k], ids)
+        return kind, gates.PauliRotation(qs[:k], ids, special_angle(rng))
+    if kind == "UnitaryMatrix":
+        k = rng.choice([1, 1, 2])
+        if k == 1:
+            m = dense.ONE[rng.choice(["H", "S", "X", "SqrtX", "T", "Identity"])]
+            if rng.random() < 0.3:
+                m = m @ dense.rz(rng.choice([1e-6, 1e-3, math.pi / 2]))
+        else:
+            m = dense.local_matrix(rng.choice(["CNOT", "CZ", "SWAP"]))
+            if rng.random() < 0.3:
+                m = m @ np.kron(dense.ONE["T"], dense.I2)
+        return kind, gates.UnitaryMatrix(qs[:k], m.tolist())
+    if kind == "TOFFOLI":
+        return kind, gates.TOFFOLI(qs[0], qs[1], qs[2])
+    return kind, getattr(gates, kind)(a)
+
+
+def judge_any(ctx, kind, gate, pairs, label):
+    """One call with a gate of any kind. The property leaves two outcomes: the call raises, or it returns (P', c) with c = ±1
+    and U P U† = c P' exactly (U from the oracle's dense semantics of the gate, its actual parameters included) — and a gate
+    whose unitary is strictly not Clifford must not be admitted at all."""
+    import types
+
+    import numpy as np
+
+    from oracle import dense
+    from quri_parts.core.operator.conjugation import clifford_gate_conjugation
+
+    try:
+        res, coef = clifford_gate_conjugation(gate, label)
+    except Exception:  # noqa: BLE001  rejected
+        return "raised"
+    try:
+        cl, tl = [int(x) for x in gate.control_indices], [int(x) for x in gate.target_indices]
+        params = [float(x) for x in gate.params]
+        pids = [int(x) for x in gate.pauli_ids]
+        um = [list(r) for r in gate.unitary_matrix]
+    except Exception:  # noqa: BLE001
+        return "unreadable-gate"
+    inp = {"gate": kind, "controls": cl, "targets": tl, "params": [repr(x) for x in params], "pauli_ids": pids, "label": pairs}
+    if um:
+        inp["unitary_matrix"] = repr(um)
+    try:
+        out = sorted((int(i), int(p)) for i, p in res)
+        c = complex(coef)
+    except Exception as e:  # noqa: BLE001
+        ctx.witness("conj:" + kind, f"result is not a (Pauli label, number) pair: {type(e).__name__}", inp, repr((res, coef))[:200])
+        return "returned"
+    inp["returned"] = [out, str(coef)]
+    try:
+        local = dense.local_matrix(gate.name, tuple(params), tuple(pids), um or None)
+    except Exception:  # noqa: BLE001  (no dense semantics for this gate: nothing to judge)
+        return "returned"
+    defect = clifford_defect(local)
+    if defect > 1e-9:
+        ctx.witness("non-clifford-accepted:" + kind,
+                    f"{kind} with these parameters is not a Clifford gate (its conjugate of a Pauli generator is {defect:.3g} away from every ±Pauli string) but was not rejected",
+                    inp)
+        return "returned"
+    wires = cl + tl
+    if len({i for i, _ in out}) != len(out) or any(p not in (1, 2, 3) for _, p in out) or c not in (1, -1):
+        ctx.witness("conj:" + kind, "returned pair is not (Pauli string, ±1)", inp)
+        return "returned"
+    qubits = sorted(set(wires) | {i for i, _ in pairs} | {i for i, _ in out})
+    if len(qubits) > 8:
+        return "returned"
+    pos = {q: j for j, q in enumerate(qubits)}
+    n = max(1, len(qubits))
+
+    def pmat(ps):
+        m = np.eye(1 << n, dtype=complex)
+        for i, p in ps:
+            m = dense.embed(n, [pos[i]], dense.PAULI[p]) @ m
+        return m
+
+    u = dense.embed(n, [pos[q] for q in wires], local)
+    d = float(np.max(np.abs(u @ pmat(pairs) @ u.conj().T - c * pmat(out))))
+    if d > 1e-9:
+        ctx.witness("conj:" + kind, f"U P U† differs from c·P' by {d:.3g} (c={coef})", inp)
+    return "returned"
+
+
+def validate_admission(ctx: Ctx, n_cases: int) -> int:
+    """gates of every other kind with parameters at / beside / far from the special values, × labels that touch, miss,
+    partly overlap the gate or are empty; every call that returns is judged by the dense oracle"""
+    from quri_parts.core.operator import PauliLabel
+
+    rng = ctx.rng
+    n_eval = 0
+    for _ in range(n_cases):
+        base = rng.choice([0, 0, 0, 2, 62])
+        qs = [base + x for x in rng.sample(range(5), 4)]
+        try:
+            kind, gate = any_gate(rng, qs)
+        except Exception:  # noqa: BLE001
+            continue
+        wires = [int(x) for x in [*gate.control_indices, *gate.target_indices]]
+        spare = [q for q in range(base, base + 7) if q not in wires]
+        for mode in ("miss", "touch", "mixed", "empty", "single"):
+            if mode == "miss":
+                idx = rng.sample(spare, rng.randint(1, 2))
+            elif mode == "touch":
+                idx = rng.sample(wires, rng.randint(1, len(wires)))
+            elif mode == "mixed":
+                idx = rng.sample(wires, rng.randint(1, len(wires))) + rng.sample(spare, 1)
+            elif mode == "single":
+                idx = [rng.choice(wires)]
+            else:
+                idx = []
+            pairs = [(i, rng.randint(1, 3)) for i in idx]
+            rng.shuffle(pairs)
+            n_eval += 1
+            ctx.count("admission", kind + ":" + judge_any(ctx, kind, gate, pairs, PauliLabel(pairs)))
+    return n_eval
+
+
 def validate(ctx: Ctx, budget_s: float):
     """U P U† = c P' with c = ±1 on the real code, dense matrices, n ≤ 5"""
     import time
@@ -556,9 +753,10 @@ def validate(ctx: Ctx, budget_s: float):
         except Exception as e:  # noqa: BLE001
             ctx.witness("non-clifford-accepted:" + kind, f"{kind}: unexpected {type(e).__name__}", {"gate": kind})
     n_forms = validate_forms(ctx, budget_s * 0.5)
-    n_eval += n_forms
+    n_adm = validate_admission(ctx, ctx.n(1500, 15000) * (1 if budget_s < 20 or not ctx.quick() else 3))
+    n_eval += n_forms + n_adm
     ctx.evaluations += n_eval
-    ctx.extra["oracle_validation"] = {"evaluations": n_eval, "forms_histories_wide_indices": n_forms}
+    ctx.extra["oracle_validation"] = {"evaluations": n_eval, "forms_histories_wide_indices": n_forms, "admission_any_gate_special_parameters": n_adm}
     ctx.search_budget_s = budget_s
 
 
@@ -570,7 +768,7 @@ def run(ctx: Ctx, replay=None) -> int:
     ]
     ctx.assumptions = ["labels are valid (one Pauli per index)", "gate qubits are distinct"]
     gen(ctx)
-    ok = ctx.prove(["QuriVerif.Props.C06", "QuriVerif.Driver.All"], ["QuriVerif.Props.C06", "QuriVerif.Generated.C06Tables"])
+    ok = ctx.prove(["QuriVerif.Props.C06", "QuriVerif.Driver.C06"], ["QuriVerif.Props.C06", "QuriVerif.Generated.C06Tables"])
     if ok:
         names = [f"QV.Props.C06.{n}" for _, n, _ in ctx.count_obligations(["QuriVerif.Props.C06"])]
         ctx.audit(names + ["QV.C06.spectators_unchanged", "QV.C06.acted_local"], ["QuriVerif.Props.C06"])
